@@ -6,7 +6,11 @@ namespace Goflow.Gen.Sflow
 open Goflow Goflow.Gen Goflow.Spec.Sflow
 
 def genIP : G Bytes := do
-  if (← bool) then bytesOf 4 else bytesOf 16
+  match (← below 8) with
+  | 0 => pure (List.replicate 10 0 ++ [0xff, 0xff] ++ (← bytesOf 4))      -- IPv4-mapped IPv6: stays 16 bytes
+  | 1 => if (← bool) then pure (List.replicate 4 0) else pure (List.replicate 16 0)
+  | 2 | 3 | 4 => bytesOf 4
+  | _ => bytesOf 16
 
 def w32 : G Nat := bitsVal 32
 
